@@ -98,6 +98,26 @@ def openOp (route lst tgt : String) (early banner seedC seedT : Nat) : Option St
   -- a banner that was not read ahead is the target's first segment
   if route ≠ "viafake" ∧ banner > 0 then some (s.stepDown (.data bannerB)) else some s
 
+/-- `openfake`: a raw downstream proxy whose answer to the CONNECT is given. Any 2xx: a tunnel, the
+banner read ahead with the head. Anything else: the answer and its body are relayed, the downstream
+proxy hangs up, the client sees end-of-stream. -/
+def doOpenFake (s : St) (lst tgt early banner seedC seedT status : String) : St × String :=
+  if s.phase ≠ 0 then (s, "bad-op") else
+  match early.toNat?, banner.toNat?, seedC.toNat?, seedT.toNat?, status.toNat? with
+  | some e, some b, some sc, some st, some code =>
+    if (Connect.answered code []).established then
+      match openOp "viafake" lst tgt e b sc st with
+      | some s' => (s', s!"status {(handleConnect s'.cfg (.answered code []) [] [] []).status} {s'.obs}")
+      | none => (s, "bad-op")
+    else
+      if e ≠ 0 ∨ code < 100 ∨ code > 599 then (s, "bad-op") else
+      match openOp "viafake" lst tgt 0 b sc st with
+      | some s' =>
+        let s' := s'.stepDown .eof
+        ({ s' with phase := 3 }, s!"status {(handleConnect s'.cfg (.answered code []) [] [] []).status} c={s'.cD.show} ceof={b01 s'.cEOF}")
+      | none => (s, "bad-op")
+  | _, _, _, _, _ => (s, "bad-op")
+
 def doOpen (s : St) (route lst tgt early banner seedC seedT : String) : St × String :=
   if s.phase ≠ 0 then (s, "bad-op") else
   match early.toNat?, banner.toNat?, seedC.toNat?, seedT.toNat? with
@@ -131,6 +151,8 @@ def step (s : St) (toks : List String) : St × String :=
   | ["open", route, lst, tgt, early, banner, seedC, seedT, _timeoutMs] =>
     -- the proxy's timeout is wall-clock: the model sees it only as the `deadline` event of op `outlive`
     doOpen s route lst tgt early banner seedC seedT
+  | ["openfake", lst, tgt, early, banner, seedC, seedT, status, _style] =>
+    doOpenFake s lst tgt early banner seedC seedT status
   | ["outlive", wrote, fwd] =>
     -- the client wrote `wrote` bytes without ever being idle; `fwd` of them had been forwarded when the
     -- serving loop's deadline on the client connection fell (fwd = wrote: it did not fall)
